@@ -62,7 +62,9 @@ OPS = [
     ("clear_results", {}),
 ]
 PROTOCOL = [(0.5, {"k": 2.0}), (1.0, {"k": 0.5})]
-VARIANTS = {"auto": {"k": 1.0, "c": 2.0, "a": 0.0}, "timedep": {"k": 1.0, "c": 2.0, "a": 0.5}}
+# "rich": the same equations as "auto", but k and x reach the rate through a derived parameter and a derived
+# variable (every parameter update has something to re-resolve; a lean model has nothing)
+VARIANTS = {"auto": {"k": 1.0, "c": 2.0, "a": 0.0}, "timedep": {"k": 1.0, "c": 2.0, "a": 0.5}, "rich": {"k": 1.0, "c": 2.0, "a": 0.0}}
 X0 = 1.0
 
 
@@ -79,6 +81,10 @@ def r_out(k, x):
     return k * x
 
 
+def ident(v):
+    return v
+
+
 def make_model(variant):
     from mxlpy import Model
 
@@ -87,7 +93,12 @@ def make_model(variant):
     m.add_variable("x", X0)
     m.add_parameters(dict(p))
     m.add_reaction("v_in", r_in, args=["c", "a", "time"], stoichiometry={"x": 1})
-    m.add_reaction("v_out", r_out, args=["k", "x"], stoichiometry={"x": -1})
+    if variant == "rich":
+        m.add_derived("kd", ident, args=["k"])
+        m.add_derived("xd", ident, args=["x"])
+        m.add_reaction("v_out", r_out, args=["kd", "xd"], stoichiometry={"x": -1})
+    else:
+        m.add_reaction("v_out", r_out, args=["k", "x"], stoichiometry={"x": -1})
     return m
 
 
@@ -437,13 +448,16 @@ def run(ctx):
     ss = idx[repr(("steady_state", {}))]
     roots = [[sim05, upd], [sim05, idx[repr(("update_parameter", {"name": "k", "factor": 2.0}))]]]
     for variant in VARIANTS:
-        for root in roots + ([[ss]] if variant == "auto" else []):
+        for root in roots + ([[ss]] if variant != "timedep" else []):
             fail, _step, digest, _ref, _p = run_history(variant, root)
             if fail is None:
                 frontier.append((variant, list(root), digest))
+    # total history length is bounded by depth + 1: the (length <= 2) non-initial roots are extended one level less
     for d in range(1, depth + 1):
         cases = []
         for variant, hist, dig in frontier:
+            if len(hist) >= depth + 1:
+                continue
             for oi, op in enumerate(OPS):
                 if variant == "timedep" and op[0] == "steady_state":
                     continue  # no steady state exists for the time-dependent variant
